@@ -716,6 +716,10 @@ def run(repo: Repo, rep: Report, tier: str) -> None:
     from .c09 import zero_alignment_rule
 
     zero_alignment_rule(repo, rep, "C04.R14")
+    from .c03 import block_alignment_rule
+
+    block_alignment_rule(repo, rep, "C04.R15")
+
 
 
 
